@@ -70,7 +70,8 @@ def main():
                 mt = json.load(open(meta))
                 jobs.append(dict(name=d, kind='patch', patch=os.path.join(sd, d, 'patch.diff'), checks=mt.get('run_checks') or [mt['property']]))
     if a.only:
-        jobs = [j for j in jobs if a.only in j['name']]
+        import re
+        jobs = [j for j in jobs if re.search(a.only, j['name'])]
     out_path = os.path.join(HERE, 'seeded', 'RESULTS.json')
     old = {}
     if os.path.exists(out_path):
